@@ -532,10 +532,11 @@ func (h *fsHandler) compressFileNolock(f *os.File, fileInfo os.FileInfo, filePat
 	zf, err := os.Create(tmpFilePath)
 	if err != nil {
 		f.Close()
-		// no permission, or no valid name for the compressed copy: the caller serves the
-		// file uncompressed
+		// The compressed copy cannot be saved - no permission, no valid name for it, a
+		// read-only or full file system, the name taken by something else: the file is
+		// there all the same, the caller serves it uncompressed.
 		if !os.IsPermission(err) && !stderrors.Is(err, syscall.ENAMETOOLONG) {
-			return nil, fmt.Errorf("cannot create temporary file %q: %s", tmpFilePath, err)
+			hlog.SystemLogger().Warnf("cannot create temporary file %q: %s", tmpFilePath, err)
 		}
 		return nil, errNoCreatePermission
 	}
